@@ -62,9 +62,10 @@ package moss
 //@ pure opaque func kop(a *segment, i int) uint64 = opOf(a.kvs[2*i])
 //@ pure opaque func keyRank(a *segment, i int) real = rank(a.buf[kstart(a, i) : kstart(a, i) + klen(a, i)])
 
-// Every entry lies inside buf.
-//@ pure func segValid(a *segment) bool = a != nil && len(a.kvs) % 2 == 0 &&
-//@     (forall i int :: 0 <= i && i < segLen(a) ==> 0 <= kstart(a, i) && kstart(a, i) + klen(a, i) + vlen(a, i) <= len(a.buf))
+// Every entry lies inside buf and has a non-zero operation; buf is non-nil (segmentStack.get tells "found"
+// from "absent" by val != nil, and values are slices of buf).
+//@ pure func segValid(a *segment) bool = a != nil && len(a.kvs) % 2 == 0 && a.buf != nil &&
+//@     (forall i int :: 0 <= i && i < segLen(a) ==> 0 <= kstart(a, i) && kstart(a, i) + klen(a, i) + vlen(a, i) <= len(a.buf) && kop(a, i) != 0)
 // Keys strictly ascending (a sorted segment holds each key once).
 //@ pure func segSorted(a *segment) bool = forall i int, j int :: 0 <= i && i < j && j < segLen(a) ==> keyRank(a, i) < keyRank(a, j)
 
@@ -135,6 +136,7 @@ package moss
 //@   ensures @noerr err == nil
 //@   ensures @present forall p int :: 0 <= p && p < segLen(a) && keyRank(a, p) == rank(key) ==> operation == kop(a, p) && val == valAt(a, p)
 //@   ensures @absent (forall p int :: 0 <= p && p < segLen(a) ==> keyRank(a, p) != rank(key)) ==> operation == 0 && val == nil
+//@   ensures @assume_fn operation == segGetOp(a, key) && val == segGetVal(a, key)
 
 //@ func (a *segment) Len() int
 //@   props C09 C20
@@ -146,7 +148,7 @@ package moss
 //@ pure func lowerBound(a *segment, key []byte, p int) bool = 0 <= p && p <= segLen(a) &&
 //@     (forall q int :: 0 <= q && q < p ==> keyRank(a, q) < rank(key)) &&
 //@     (forall q int :: p <= q && q < segLen(a) ==> keyRank(a, q) >= rank(key))
-//@ pure func segOK(a *segment) bool = segValid(a) && segSorted(a) && indexOK(a)
+//@ pure opaque func segOK(a *segment) bool = segValid(a) && segSorted(a) && indexOK(a)
 //@ pure func cursorOK(c *segmentCursor) bool = c != nil && segOK(c.s) &&
 //@     0 <= c.start && c.start <= segLen(c.s) && 0 <= c.end && c.end <= segLen(c.s) && c.start <= c.curr
 //@ pure func curOf(sc SegmentCursor) *segmentCursor = ptrOf(sc, "*segmentCursor")
@@ -319,3 +321,70 @@ package moss
 //@       kstart(a, j) == old(kstart(a, i)) && klen(a, j) == old(klen(a, i)) && vlen(a, j) == old(vlen(a, i)) && kop(a, j) == old(kop(a, i))
 //@   ensures @others forall p int :: 0 <= p && p < segLen(a) && p != i && p != j ==>
 //@       kstart(a, p) == old(kstart(a, p)) && klen(a, p) == old(klen(a, p)) && vlen(a, p) == old(vlen(a, p)) && kop(a, p) == old(kop(a, p))
+
+// ---- reading a stack of segments (C01, C08, C10) ----------------------------------------------
+
+// What Segment.Get returns, as functions of the segment's contents and the key
+// (Get is pure and deterministic; its results are characterised by
+// segment.Get/ensures#present and #absent).
+//@ pure abstract func segGetOp(a *segment, key []byte) uint64 reads segOK(a), kop(a, 0), rank(valAt(a, 0)), rank(key)
+//@ pure abstract func segGetVal(a *segment, key []byte) []byte reads segOK(a), kop(a, 0), rank(valAt(a, 0)), rank(key)
+// The configured merge operator and the lower level, as functions.
+//@ pure abstract func fullMerge(mo MergeOperator, key []byte, existing []byte, operand []byte) []byte reads rank(key)
+//@ pure abstract func fullMergeOK(mo MergeOperator, key []byte, existing []byte, operand []byte) bool reads rank(key)
+//@ pure abstract func llGet(w *SnapshotWrapper, key []byte) []byte reads rank(key), w.ss
+
+//@ pure opaque func segIfc(ss *segmentStack, i int) Segment = ss.a[i]
+//@ pure func segAt(ss *segmentStack, i int) *segment = ptrOf(segIfc(ss, i), "*segment")
+//@ pure func stackOK(ss *segmentStack) bool = ss != nil &&
+//@     (forall i int :: 0 <= i && i < len(ss.a) ==> typeIs(segIfc(ss, i), "*segment") && segAt(ss, i) != nil && segOK(segAt(ss, i)))
+//@ pure func moOf(ss *segmentStack) MergeOperator = ite(ss.options != nil, ss.options.MergeOperator, nil)
+
+// Reference semantics of a read (property C01/C08): the newest segment that
+// holds the key decides; Del hides everything older; a Merge operand is
+// applied on top of whatever the older levels yield.
+//@ pure rec func stackRead(ss *segmentStack, s int, key []byte, below []byte) []byte =
+//@     ite(s < 0, below,
+//@     ite(segGetOp(segAt(ss, s), key) == 0, stackRead(ss, s - 1, key, below),
+//@     ite(segGetOp(segAt(ss, s), key) == OperationDel, nil,
+//@     ite(segGetOp(segAt(ss, s), key) == OperationMerge,
+//@         fullMerge(moOf(ss), key, stackRead(ss, s - 1, key, below), segGetVal(segAt(ss, s), key)),
+//@         segGetVal(segAt(ss, s), key)))))
+//@ pure rec func belowOf(ss *segmentStack, base *segmentStack, skipLower bool, key []byte) []byte =
+//@     ite(base != nil, stackRead(base, len(base.a) - 1, key, belowOf(base, nil, skipLower, key)),
+//@     ite(!skipLower && ss.lowerLevelSnapshot != nil, llGet(ss.lowerLevelSnapshot, key), nil))
+//@ pure func readFrom(ss *segmentStack, s int, key []byte, base *segmentStack, skipLower bool) []byte =
+//@     stackRead(ss, s, key, belowOf(ss, base, skipLower, key))
+
+//@ func Segment.Get
+//@   attr delegate *segment
+
+//@ func MergeOperator.FullMerge
+//@   props C08
+//@   requires len(operands) == 1
+//@   ensures r0 == fullMerge(self, key, existingValue, operands[0]) && r1 == fullMergeOK(self, key, existingValue, operands[0])
+
+//@ func (w *SnapshotWrapper) Get(key []byte, readOptions ReadOptions) ([]byte, error)
+//@   trusted the lower level is read through an abstract function of the wrapper and the key
+//@   ensures r1 == nil ==> r0 == llGet(w, key)
+
+//@ func (ss *segmentStack) ensureSorted(minSeg, maxSeg int)
+//@   trusted deferred-sort ticket protocol abstracted: the segments under contract are sorted already, for which this is a no-op
+
+//@ func (ss *segmentStack) get(key []byte, segStart int, base *segmentStack, readOptions ReadOptions) ([]byte, error)
+//@   props C01 C08 C10
+//@   requires stackOK(ss) && -1 <= segStart && segStart < len(ss.a) && (base != nil ==> stackOK(base))
+//@   ensures @read r1 == nil ==> r0 == readFrom(ss, segStart, key, base, readOptions.SkipLowerLevel)
+//@   loop 1: invariant -1 <= seg && seg <= segStart
+//@   loop 1: invariant readFrom(ss, seg, key, base, readOptions.SkipLowerLevel) == readFrom(ss, segStart, key, base, readOptions.SkipLowerLevel)
+//@   loop 1: decreases seg + 1
+
+//@ func (ss *segmentStack) getMerged(key, val []byte, segStart int, base *segmentStack, readOptions ReadOptions) ([]byte, error)
+//@   props C01 C08
+//@   requires stackOK(ss) && -1 <= segStart && segStart < len(ss.a) && (base != nil ==> stackOK(base))
+//@   ensures @once r1 == nil ==> r0 == fullMerge(moOf(ss), key, readFrom(ss, segStart, key, base, readOptions.SkipLowerLevel), val)
+
+//@ func (ss *segmentStack) Get(key []byte, readOptions ReadOptions) ([]byte, error)
+//@   props C01 C10
+//@   requires stackOK(ss)
+//@   ensures @read r1 == nil ==> r0 == readFrom(ss, len(ss.a) - 1, key, nil, readOptions.SkipLowerLevel)
